@@ -306,6 +306,8 @@ func (env *Env) tryIdent(name string) (Value, bool) {
 		return v, true
 	}
 	switch name {
+	case "W":
+		return intVal(env.e.W(env.st)), true
 	case "nil":
 		return Value{T: types.Typ[types.UntypedNil], S: []string{"0"}}, true
 	case "true":
@@ -678,6 +680,12 @@ func (env *Env) call(x *SExpr) Value {
 	case "cap":
 		v := env.eval(args[0])
 		return intVal(v.S[2])
+	case "arrayOf":
+		v := env.eval(args[0])
+		if !isSlice(v.T) {
+			specFail("arrayOf needs a slice")
+		}
+		return intVal(v.S[0])
 	case "abs":
 		v := env.eval(args[0])
 		switch {
